@@ -412,7 +412,19 @@ def load_findings():
 def write_replay(ctx, payload):
     d = os.path.join(VERIF, "replays", ctx.pid)
     os.makedirs(d, exist_ok=True)
-    blob = json.dumps(payload, ensure_ascii=False, sort_keys=True, indent=1)
+    def plain(o):
+        # a violation must never be lost to a payload the encoder refuses (Fraction, set, tuple keys, bytes ...)
+        if isinstance(o, (set, frozenset)):
+            return sorted(map(str, o))
+        return str(o)
+
+    def keys_ok(o):
+        if isinstance(o, dict):
+            return {(k if isinstance(k, (str, int, float, bool)) or k is None else str(k)): keys_ok(v) for k, v in o.items()}
+        if isinstance(o, (list, tuple)):
+            return [keys_ok(x) for x in o]
+        return o
+    blob = json.dumps(keys_ok(payload), ensure_ascii=False, sort_keys=False, indent=1, default=plain)
     h = hashlib.sha1(blob.encode()).hexdigest()[:12]
     p = os.path.join(d, h + ".json")
     with open(p, "w") as f:
